@@ -64,6 +64,9 @@ def gen_rspec(rng, frng, name):
     else:
         rs["kind"] = rng.choice(["badkey_none", "badkey_empty", "badkey_int", "badkey_bytes", "reserved_type",
                                  "reserved_key", "metadata_reserved"])
+    # a content template of the rule (only looked at when a formatter renders content)
+    rs["content"] = rng.choice([None, None, None, None, "static text", "{{ d }} ok", "{{ d + 1 }}", "{% if d %}unterminated",
+                                {"KEY_A": "{{ d }}", "KEY_B": 5}, "{{ nosuchname.attr }}"])
     rs["tags"] = rng.choice([None, [], ["t1"], ["t1", "t2"], ["security", "t2", "kernel"]])
     rs["links"] = rng.choice([None, None, {}, {"kcs": ["https://example.test/1"]},
                               {"kcs": ["https://example.test/1", "https://example.test/2"], "jira": ["X-1"]}])
@@ -112,6 +115,7 @@ def gen_case(st, tier):
     d = {"kind": "eval", "evaluator": ev}
     if ev == "json":
         d["missing"] = rk.random() < 0.5
+        d["render_content"] = rk.random() < 0.3
         d["show_rules"] = rk.choice([None, None, ["rule"], ["rule", "pass", "info"], ["none", "metadata", "fingerprint"],
                                      ["rule", "pass", "info", "none", "metadata", "fingerprint"]])
     mode = rs.choice(["serial", "incr", "pool", "pool"])
@@ -130,6 +134,12 @@ def gen_case(st, tier):
             else:
                 d["sched"]["horizon"] *= 6
     case["driver"] = d
+    if rk.random() < 0.2:
+        # a long-lived process: the rules were evaluated (and reported) once already, then configuration gave some of
+        # them other tags (insights.apply_configs, which runs before every insights.run / collect / shell evaluation)
+        rules = [i for i, nd in enumerate(nodes) if nd["type"] == "rule"]
+        case["retag"] = [{"node": i, "tags": rk.choice([[], ["cfg"], ["cfg", "t1"], ["security"]])}
+                         for i in rules if rk.random() < 0.5]
     return case
 
 
@@ -192,12 +202,37 @@ def run_eval(case):
                 world.make_observers()
                 world.build()
                 graph = world.graph()
+                ev = driver["evaluator"]
+                mode = driver["mode"]
+                if case.get("retag") is not None:
+                    # first evaluation (serial, same evaluator class, its own broker), then the configuration change
+                    b0 = world.new_broker()
+                    s0 = io.StringIO()
+                    try:
+                        if ev in ("single", "insights"):
+                            e0 = (evaluators.SingleEvaluator if ev == "single" else evaluators.InsightsEvaluator)(b0, stream=s0)
+                            e0.observer = SeededObserver(e0.observer, case.get("evaluator_hash", 7))
+                            e0.process(graph)
+                        else:
+                            e0 = json_format.JsonFormat(b0, missing=True, render_content=driver.get("render_content", False), stream=s0)
+                            e0.observer = SeededObserver(e0.observer, case.get("evaluator_hash", 7))
+                            e0.preprocess()
+                            dr.run(graph, broker=b0)
+                            e0.postprocess()
+                    except HarnessError:
+                        raise
+                    except Exception:
+                        pass                 # whatever escapes here escapes from the evaluation under test as well
+                    en = w1.enabled_map(case)
+                    insights.apply_configs({"configs": [{"name": dr.get_name(world.objs[rt["node"]]), "enabled": en[rt["node"]],
+                                                         "tags": list(rt["tags"])} for rt in case["retag"]]})
+                    del world.ev[:]
+                    world.faults_fired.clear()
+                    world.fired("evaluated_before_and_retagged")
                 broker = world.new_broker()
                 if case.get("ctx_in_broker"):
                     broker[ExecutionContext] = ExecutionContext()
                 stream = io.StringIO()
-                ev = driver["evaluator"]
-                mode = driver["mode"]
                 res.escaped = None
                 res.response = None
                 if the_pool is not None:
@@ -211,6 +246,7 @@ def run_eval(case):
                     else:
                         # the adapter's life cycle: preprocess -> engine run (as insights._run does) -> postprocess
                         e = json_format.JsonFormat(broker, missing=driver.get("missing", False),
+                                                   render_content=driver.get("render_content", False),
                                                    show_rules=driver.get("show_rules"), stream=stream)
                         e.observer = SeededObserver(e.observer, case.get("evaluator_hash", 7))
                         e.preprocess()
@@ -387,6 +423,9 @@ def oracle_c12(case, res, m):
             if entry.get(rid) != want_id:
                 problems.append("%s %r != %r" % (rid, entry.get(rid), want_id))
             want_tags = set(nd["rspec"].get("tags") or [])
+            for rt in case.get("retag") or []:
+                if case["nodes"][rt["node"]]["name"] == name:
+                    want_tags = set(rt["tags"])
             if set(entry.get("tags", ["<none>"])) != want_tags or len(entry.get("tags", [])) != len(want_tags):
                 problems.append("tags %r != %r" % (entry.get("tags"), sorted(want_tags)))
             want_links = nd["rspec"].get("links") or {}
